@@ -35,6 +35,9 @@ FIXED = [
  ("C05", "C05-outgroup-zero-length-cut", "rooting on an outgroup separated by a zero-length branch", "`echo \"((a:1,b:1)0.8:0,c:1,d:1);\" | gotree reroot outgroup a b` gave ((c:1,d:1),(a:1,b:1)); the cut branch's length 0 and support 0.8 were lost (`if length > 0`)"),
  ("C05", "C05-midpoint-zero-length-far-end", "midpoint rooting misplaced the root", "`echo \"((a:3,x:0):1,b:0,c:0);\" | gotree reroot midpoint` gave ((a:3,x:0):1,(b:0,c:0):2); (a-b path 4 became 6): MaxLengthPath stopped at an inner node when the path ended with zero-length branches"),
  ("C05", "C05-midpoint-all-zero-panic", "midpoint rooting of a tree whose branch lengths are all 0", "`echo \"(a:0,b:0,c:0);\" | gotree reroot midpoint` panicked (index -1)"),
+ ("C19", "C19-rename-presence", "rename treated an explicit --regexp none", "`gotree rename -e none -b none` (the documented defaults) was treated as a regular-expression rename, unlike omitting the options (cmd.Flags().Changed)"),
+ ("C19", "C19-repopulate-presence", "repopulate treated an explicit --id-groups none", "`gotree repopulate -g none` (the documented default) tried to read the file none, unlike omitting the option (cmd.Flags().Changed)"),
+ ("C12", "C12-asr-lowercase", "gave lower-case nucleotides no state", "asr counted one spurious step per lower-case tip character: tree (a,b,c), a=b=c=\"a\" gave steps 3 instead of 0 (IUPAC table looked up without upper-casing)"),
  ("C08", "C08-sametree-one-directional", "Compare reported a strict contraction", "tree.Compare reported a strict contraction of the reference as identical: ref ((a,b),c,d), compared (a,b,c,d) gave Tree1=1, Tree2=0, Sametree=true"),
  ("C09", "C09-threshold-rounding", "Consensus kept bipartitions whose frequency equals", "Consensus kept a split present in 29 of 50 trees at cutoff 0.58 (int(0.58*50) = 28), although 29/50 is not greater than 0.58"),
  ("C09", "C09-rooted-double-count", "Consensus counted the root bipartition", "Consensus counted the root split of a rooted input twice: the single tree ((t1,t2),(t0,t3)) at cutoff 0.5 gave the star tree; [(t0,t3,(t1,t2)), ((t1,t2),(t0,t3))] at cutoff 1 lost the split present in every tree"),
@@ -46,6 +49,7 @@ FIXED = [
  ("C13", "C13-phyloxml-firsttree-nil", "PhyloXML FirstTree assigned a shadowed", "PhyloXML FirstTree returned (nil, nil): reading 'the first tree' of a PhyloXML file failed with 'No tree in the input PhyloXML file' although the iterator delivers it"),
 ]
 OPEN = [
+ ("C19", "C19-setrand-presence", "`gotree brlen setrand` draws the mean in [min-mean,max-mean] only when BOTH options are present on the command line (cmd.Flags().Changed): passing their documented defaults --min-mean 0.001 --max-mean 0.05 explicitly gives different branch lengths than omitting them"),
  ("C10", "C10-root-branch-beside-tip", "rooted reference whose root has a tip child: the other root branch is an inner branch with a one-taxon side; FBP gives it (bootstrap trees rooted the same way)/n instead of 1 and TBE leaves it without support (-1); witness ref ((a,(b,(c,d)))), boots [(a,b,(c,d))]"),
  ("C17", "C17-nni-root-branch", "NNIRearranger skips the inner branch through a degree-2 root: rooted ((a,b),(c,d)) gets 0 NNI proposals instead of 2 (2*(k-1) proposals for k inner branches whenever both root children are inner nodes)"),
  ("C13", "C13-nexus-taxa-union", "a tree list whose trees are on different taxon sets does not survive Newick -> Nexus -> Newick: WriteNexus declares the union of all taxa in TAXLABELS and the Nexus reader then rejects every tree on a subset (\"(a,b,c);\\n(a,b);\\n\" -> 'Some tax names defined in TAXLABELS are not present in the tree 1')"),
